@@ -2,6 +2,7 @@
 from __future__ import annotations
 
 import ast
+from ..expand import clone
 
 from ..cfg import CFG
 from ..loops import dotted
@@ -54,7 +55,7 @@ def _init_attr_values(repo, cq):
 def _unwrap_iter(v):
     """namedtuple("T", list(d)) == namedtuple("T", tuple(d)) == namedtuple("T", d): the field names are the iteration order of d."""
     import copy
-    v = copy.deepcopy(v)
+    v = clone(v)
     if isinstance(v, ast.Call) and dotted(v.func) in DYN_CTORS and len(v.args) >= 2:
         a = v.args[1]
         while isinstance(a, ast.Call) and dotted(a.func) in ("list", "tuple") and len(a.args) == 1 and not a.keywords:
